@@ -123,7 +123,16 @@ class Check:
         # replays away from the real ones
         self.scratch = os.path.realpath(REPO) != "/repo"
         self.out_root = os.path.join(BUILD_ROOT, f"trial_{os.getpid()}") if self.scratch else VERIF
-        self.build = os.path.join(BUILD_ROOT, pid + (f"_trial_{os.getpid()}" if self.scratch else ""))
+        # one build directory per process: two runs of the same check (a quick run started while a thorough one is still
+        # going) must not delete each other's files; directories left by dead processes are removed here
+        self.build = os.path.join(BUILD_ROOT, pid + (f"_trial_{os.getpid()}" if self.scratch else f"_run_{os.getpid()}"))
+        if os.path.isdir(BUILD_ROOT):
+            for d in os.listdir(BUILD_ROOT):
+                if d == pid or d.startswith(pid + "_run_") or d.startswith(pid + "_trial_"):
+                    owner = d.rsplit("_", 1)[-1]
+                    if owner.isdigit() and os.path.exists(f"/proc/{owner}"):
+                        continue
+                    shutil.rmtree(os.path.join(BUILD_ROOT, d), ignore_errors=True)
         shutil.rmtree(self.build, ignore_errors=True)
         os.makedirs(self.build, exist_ok=True)
         self.obligations = []  # dict(name, kind, ok, detail)
